@@ -94,6 +94,18 @@ ADDED['C14'] += ' Futures the library itself wraps in tokio::time::timeout are c
 ADDED['C15'] += ' Per-key header vectors of the in-memory index only grow or are cleared as a whole.'
 ADDED['C17'] += ' The provided key types are ordered bytewise.'
 
+ADDED['C01'] = ' NotFound ranks below every record in the merge (Option key).'
+ADDED['C02'] += ' A plain write passes None metadata to the duplicate check; delete_core visits the closed blobs on every Ok path; the cross-blob merge is strict and ranks NotFound below every record.'
+ADDED['C05'] += ' An error of Entry::load never ends in an Ok answer of a read; record size fields are computed by the serializer.'
+ADDED['C06'] += ' Every validation error kind the scan can raise is classified as corruption.'
+ADDED['C07'] += ' Every path into the id counter passes the maximum over work-dir and quarantine ids; every file takes the exclusive advisory lock.'
+ADDED['C09'] = ' The on-disk walks return every version of a key (no deletion-marker test in the b+tree code).'
+ADDED['C10'] += ' A child slot of the closed list is only filled in add_child.'
+ADDED['C11'] += ' After any tombstone was written a multi-blob delete cannot return Err; blob ids are never reused.'
+ADDED['C12'] += ' Posting the sync request depends on the trigger alone (deciding-switch analysis); the worker serves every sync request.'
+ADDED['C16'] += ' The tools validate blob headers version-tolerantly; the output writer resets its cached-bytes counter wherever records leave its cache; record counts are never map sizes.'
+ADDED['C17'] += ' Hand-written serde codecs use the data-model methods of the pinned release; the header CRC covers the whole patched header.'
+
 for _k, _v in ADDED.items():
     _t = CHECKS[_k]
     CHECKS[_k] = (_t[0] + _v, _t[1], _t[2])
